@@ -54,7 +54,19 @@ type plan struct {
 	Locale string
 }
 
-func drawCall(t *rapid.T) call {
+// swarm: a plan may concentrate on one family of methods, so that rare
+// pairings (two lifecycle calls in flight at once) are not left to chance.
+var focusSets = [][]string{
+	nil, nil, nil,
+	{"Suspend", "Resume", "Suspend", "Resume", "Show", "PostEvent"},
+	{"EnableMouse", "DisableMouse", "EnablePaste", "DisablePaste", "EnableFocus", "DisableFocus", "Suspend", "Resume", "SetCursorStyle", "SetTitle"},
+	{"SetSize", "Show", "Sync", "Size", "Fill", "Clear", "LockRegion", "SetContent"},
+}
+
+func drawCall(t *rapid.T, focus []string) call {
+	if focus != nil && rapid.IntRange(0, 1).Draw(t, "infocus") == 0 {
+		return call{M: rapid.SampledFrom(focus).Draw(t, "fm"), A: rapid.IntRange(0, 9).Draw(t, "a"), B: rapid.IntRange(0, 5).Draw(t, "b")}
+	}
 	return call{M: rapid.SampledFrom(methods).Draw(t, "m"), A: rapid.IntRange(0, 9).Draw(t, "a"), B: rapid.IntRange(0, 5).Draw(t, "b")}
 }
 
@@ -65,6 +77,7 @@ func drawPlan(t *rapid.T) *plan {
 	p.Pair = rapid.IntRange(0, 2).Draw(t, "pairmode") == 0
 	p.Locale = rapid.SampledFrom([]string{"", "", "en_US.ISO8859-1"}).Draw(t, "locale")
 	p.Cfg.Locale = p.Locale
+	focus := focusSets[rapid.IntRange(0, len(focusSets)-1).Draw(t, "focus")]
 	na := rapid.IntRange(2, 4).Draw(t, "nactors")
 	if p.Pair {
 		na = 2
@@ -76,13 +89,13 @@ func drawPlan(t *rapid.T) *plan {
 		}
 		var prog []call
 		for j := 0; j < n; j++ {
-			prog = append(prog, drawCall(t))
+			prog = append(prog, drawCall(t, focus))
 		}
 		p.Progs = append(p.Progs, prog)
 	}
 	ns := rapid.IntRange(0, 6).Draw(t, "nstim")
 	for i := 0; i < ns; i++ {
-		p.Stims = append(p.Stims, call{M: rapid.SampledFrom([]string{"input", "input", "resize", "pause"}).Draw(t, "stim"), A: rapid.IntRange(1, 10).Draw(t, "sa"), B: rapid.IntRange(1, 5).Draw(t, "sb")})
+		p.Stims = append(p.Stims, call{M: rapid.SampledFrom([]string{"input", "input", "resize", "quietresize", "pause"}).Draw(t, "stim"), A: rapid.IntRange(1, 10).Draw(t, "sa"), B: rapid.IntRange(1, 5).Draw(t, "sb")})
 	}
 	p.Fini = rapid.IntRange(-2, na-1).Draw(t, "fini")
 	return p
@@ -359,9 +372,25 @@ func runRace(t *rapid.T) {
 				switch st.M {
 				case "input":
 					if w.sim != nil {
-						w.sim.InjectKey(tcell.KeyRune, rune('a'+st.A), 0)
+						switch st.B {
+						case 1:
+							w.sim.InjectMouse(st.A, st.B, tcell.Button1, 0)
+						case 2:
+							w.sim.InjectKeyBytes([]byte("k\x1b[A"))
+						default:
+							w.sim.InjectKey(tcell.KeyRune, rune('a'+st.A), 0)
+						}
 					} else {
-						w.tty.Feed([]byte("k\x1b[A"))
+						// every kind of report the input goroutines parse
+						w.tty.Feed([]byte([]string{
+							"k\x1b[A",
+							fmt.Sprintf("\x1b[<0;%d;%dM\x1b[<0;%d;%dm", st.A*3, st.B*2, st.A*3, st.B*2), // SGR click
+							"\x1b[M " + string([]byte{byte(32 + st.A*3), byte(32 + st.B*2)}),                 // X11 press
+							"\x1b[200~p\x1b[201~", // bracketed paste
+							"\x1b[I\x1b[O",        // focus
+							"\x1b",                // lone ESC: the escape timer decides
+							"\x1b]52;c;Y2xpcA==\x07é", // OSC 52 reply, UTF-8
+						}[(st.A+st.B)%7]))
 					}
 				case "resize":
 					if w.sim != nil {
@@ -369,6 +398,11 @@ func runRace(t *rapid.T) {
 					} else {
 						w.tty.Resize(st.A, st.B)
 						w.tty.FireResize()
+					}
+				case "quietresize":
+					// the window changes size without a signal: the next Show/Sync picks it up
+					if w.sim == nil {
+						w.tty.Resize(st.A, st.B)
 					}
 				case "pause":
 					simrt.Sleep("term.pause", hx.Ms(st.A*7))
